@@ -90,6 +90,23 @@ def main(argv=None):
 
     # ---- cases
     cases = mod.cases(a.tier, seed)
+    sampling = None
+    keep = getattr(mod, 'THOROUGH_KEEP', None)
+    if a.tier == 'thorough' and keep:
+        # deterministic thinning of the largest thorough tiers (time): a case
+        # stays if it carries the reachability twin, is a lemma, is marked
+        # 'keep', or its name hashes below the fraction given for its family
+        import zlib
+        n0 = len(cases)
+
+        def stays(c):
+            f = keep.get(c.get('family'), keep.get('*', 1.0))
+            if c.get('twin') or c.get('kind') == 'call' or c.get('keep'):
+                return True
+            return zlib.crc32(c['name'].encode()) % 1000 < f * 1000
+        cases = [c for c in cases if stays(c)]
+        sampling = 'thorough tier thinned deterministically by case-name hash: %d of %d cases run (fractions per family: %r)' % (
+            len(cases), n0, keep)
     if a.only:
         cases = [c for c in cases if a.only in c['name']]
     tasks = []
@@ -172,6 +189,8 @@ def main(argv=None):
     # ---- evidence
     wall = time.time() - t_start
     ev = mod.evidence(a.tier, seed, tasks, results) if hasattr(mod, 'evidence') else {}
+    if sampling:
+        ev.setdefault('coverage', {})['thorough_sampling'] = sampling
     from vf import report
     evidence = report.build_evidence(prop, a.tier, seed, tasks, results,
                                      violations, machinery, tolerated, wall, ev)
